@@ -824,8 +824,23 @@ async def check_pair(run, world, model, case, kind):
         extra = list(tx.outputs)[len(outs):]
         return ({'result': 'ok', 'added': [rid_of.get(t.txo_ref.id, -1) for t in tx.inputs],
                  'change': extra[0].amount if len(extra) == 1 else (None if not extra else [o.amount for o in extra])}, tx, outs)
+    resave_changed = None
     try:
-        got = await asyncio.gather(*(one(i, d) for i, d in enumerate(case['builds'])))
+        if case.get('sequential'):
+            # one build after the other, each kept (not released); in between the wallet sync stores every funding
+            # transaction again (as it does when one moves from the mempool into a block)
+            got = []
+            for i, d in enumerate(case['builds']):
+                got.append(await one(i, d))
+                before = await world.reserved_txoids()
+                for ftx, hashes in world.funding_txs:
+                    for h in hashes:
+                        await ledger.db.save_transaction_io(ftx, ledger.hash160_to_address(h), h, '')
+                after = await world.reserved_txoids()
+                if before != after and resave_changed is None:
+                    resave_changed = (sorted(rid_of.get(t, t) for t in before), sorted(rid_of.get(t, t) for t in after))
+        else:
+            got = await asyncio.gather(*(one(i, d) for i, d in enumerate(case['builds'])))
     finally:
         RecordingRandom.tagger = None
     reserved_mid = sorted(rid_of[t] for t in await world.reserved_txoids())
@@ -834,9 +849,12 @@ async def check_pair(run, world, model, case, kind):
             await ledger.release_tx(tx)
     reserved_end = sorted(rid_of[t] for t in await world.reserved_txoids())
     run.case(dict(case, origin=kind), nontrivial=sum(1 for g, _, _ in got if g['result'] == 'ok') >= 2)
-    run.count('concurrent-pair:%s' % case['strategy'])
+    run.count(('sequential-with-resave:%s' if case.get('sequential') else 'concurrent-pair:%s') % case['strategy'])
     # monitor
     bad = None
+    if resave_changed:
+        bad = ('re-saving the funding transactions changed the reserved outputs from %s to %s while the transactions '
+               'holding them were neither broadcast nor abandoned' % resave_changed)
     seen = {}
     for i, (g, tx, _) in enumerate(got):
         if g['result'] not in ('ok', 'InsufficientFundsError'):
@@ -866,7 +884,7 @@ async def check_pair(run, world, model, case, kind):
             if 'added' in g:
                 g['added'] = sorted(g['added'])
     first = None
-    for order in itertools.permutations(range(len(got))):
+    for order in ([tuple(range(len(got)))] if case.get('sequential') else itertools.permutations(range(len(got)))):
         wallet = model_wallet(rows_before)
         mod = [None] * len(got)
         for i in order:
@@ -954,6 +972,7 @@ async def amain(run, only=None):
         for k in range(vlib.scaled(run.tier, 12, 300)):
             for s in strats:
                 await check_pair(run, world, model, gen_pair_case(rng, s), 'generated')
+                await check_pair(run, world, model, dict(gen_pair_case(rng, s), sequential=True), 'generated')
         sel_strats = [s for s in strats if s != 'sqlite']
         for k in range(n_select):
             for s in sel_strats:
